@@ -1,6 +1,8 @@
 package api
 
 import (
+	"io"
+
 	"github.com/gregoryv/mq"
 
 	"verif/harness/model"
@@ -256,9 +258,13 @@ func DisconnectHasSetters() bool {
 }
 
 // Step is one call of Build's plan: setter index and, for adders, the element.
+// Probe > 0 asks Build to run a read-only operation on the half-built packet
+// right after this call (1 String, 2 WriteTo to io.Discard, 3 Dump,
+// 4 WellFormed): encoders that cache derived state must survive that.
 type Step struct {
 	Setter int
 	Elem   int
+	Probe  int `json:",omitempty"`
 }
 
 // Plan produces a call sequence for m: every list element in list order,
@@ -292,7 +298,7 @@ func Plan(m *model.Packet, order []int, skipZero []bool) []Step {
 					kk = last
 				}
 				last = kk
-				ks = append(ks, keyed{Step{i, e}, kk, len(ks)})
+				ks = append(ks, keyed{Step{Setter: i, Elem: e}, kk, len(ks)})
 			}
 			continue
 		}
@@ -303,7 +309,7 @@ func Plan(m *model.Packet, order []int, skipZero []bool) []Step {
 		if s.IsZero != nil && s.IsZero(m) && len(skipZero) == 0 {
 			continue
 		}
-		ks = append(ks, keyed{Step{i, 0}, kk, len(ks)})
+		ks = append(ks, keyed{Step{Setter: i}, kk, len(ks)})
 	}
 	// stable insertion sort by key
 	for i := 1; i < len(ks); i++ {
@@ -326,8 +332,25 @@ func Build(m *model.Packet, plan []Step) mq.ControlPacket {
 	ss := Setters(m.Type)
 	for _, st := range plan {
 		ss[st.Setter].Apply(p, m, st.Elem)
+		Probe(p, st.Probe)
 	}
 	return p
+}
+
+// Probe runs one read-only operation on p.
+func Probe(p mq.ControlPacket, kind int) {
+	switch kind {
+	case 1:
+		_ = p.String()
+	case 2:
+		_, _ = p.WriteTo(io.Discard)
+	case 3:
+		mq.Dump(io.Discard, p)
+	case 4:
+		if wf, ok := p.(mq.HasWellFormed); ok {
+			_ = wf.WellFormed()
+		}
+	}
 }
 
 // BuildDefault uses the canonical order and skips zero-valued scalars.
